@@ -163,6 +163,47 @@ def check(run, model, tier):
         norm(sl.value) == 'list(%s.values())' % iis.params[0] for sl in slices)
     run.inst('REG.inverse', iis, 'inner signals = values()[0:highest_inner_signal]', ok,
              '' if ok else 'is_inner_signal does not test membership in exactly the built-in prefix of the registry', obligation=True)
+    # ---- the two readers are pure functions of the registry: evaluate them on small registries (k built-in names first, then user names)
+    run.rule('REG.readers-eval', 'is_inner_signal / name_for_signal evaluated over small registries: inner == among the first highest_inner_signal entries; name_for_signal inverts the binding')
+    from sa import pureeval
+    import collections as _c
+
+    class _Reg(_c.OrderedDict):
+        pass
+    bad_i, bad_n, n_eval = None, None, 0
+    try:
+        for n_inner in (1, 3):
+            for n_user in (0, 2):
+                reg = _Reg()
+                for i in range(n_inner):
+                    reg['INNER_%d' % i] = i + 1
+                for i in range(n_user):
+                    reg['USER_%d' % i] = n_inner + i + 1
+                reg.highest_inner_signal = n_inner
+                probes = [(k, v <= n_inner) for k, v in reg.items()] + [(v, v <= n_inner) for v in reg.values()] + [('NEVER_SEEN', False), (n_inner + n_user + 5, False), (0, False), (None, False)]
+                for arg, want in probes:
+                    n_eval += 1
+                    try:
+                        got = pureeval.call(iis.node, [reg, arg], strict_locals=True)
+                    except pureeval.Raised as ex:
+                        got = 'raises ' + ex.what
+                    if got is not want and bad_i is None:
+                        bad_i = (dict(reg), n_inner, arg, want, got)
+                for k, v in reg.items():
+                    n_eval += 1
+                    try:
+                        got = pureeval.call(nfs.node, [reg, v], strict_locals=True)
+                    except pureeval.Raised as ex:
+                        got = 'raises ' + ex.what
+                    if got != k and bad_n is None:
+                        bad_n = (dict(reg), v, k, got)
+        run.inst('REG.readers-eval', iis, 'is_inner_signal(x) is True exactly for the built-in names and numbers (%d evaluations)' % n_eval, bad_i is None,
+                 '' if bad_i is None else ('with the registry %s (%d built-in) is_inner_signal(%r) answers %r, expected %r: a user signal is treated as an inner signal (no spy hook line, no trace '
+                                           'record) or a built-in one as a user signal' % (bad_i[0], bad_i[1], bad_i[2], bad_i[4], bad_i[3])), obligation=True)
+        run.inst('REG.readers-eval', nfs, 'name_for_signal(number) is the name registered under that number', bad_n is None,
+                 '' if bad_n is None else 'with the registry %s name_for_signal(%r) answers %r, expected %r' % (bad_n[0], bad_n[1], bad_n[3], bad_n[2]), obligation=True)
+    except AnalysisError as ex_:
+        run.note('the registry readers are outside the pure fragment of the evaluator (%s): decided by the shape rules only' % ex_)
     ga = src.methods.get('__getattr__')
     if ga is not None:
         ok = any(isinstance(c.func, ast.Attribute) and c.func.attr == 'append' and dotted(c.func.value) == ga.params[0] for c in shallow_calls(ga.node))
